@@ -62,6 +62,10 @@ class SPath(SOpaque):
                 return SList([SPath(self.parts + (SStr(z3.Const(f"entry{j}_name", z3.StringSort())),), self.trace, self.world)
                               for j in range(n)])
             return SFunc("model", it)
+        if name == "parent":
+            # the parent of a path below the root of the model; the parent of the root itself is a directory outside
+            return SPath(self.parts[:-1], self.trace, self.world) if len(self.parts) > 1 else \
+                SPath(("outside:parent-of-" + str(self.parts[0]),), self.trace, self.world)
         if name == "name":
             last = self.parts[-1]
             return last if isinstance(last, (str, SStr)) else SStr(z3.Const("path_name", z3.StringSort()))
@@ -284,3 +288,92 @@ def init_contract():
                   statement="project directory = the explicit output path, else cwd/package_name (meta none) or cwd/project_name; package "
                             "directory = project directory (meta none) or project_directory/package_name", props=["C19", "C16"])]
     return FnContract("openapi_python_client:Project.__init__", [Case("all-option-combinations", make, cls, raises=(), props=["C16", "C19"])])
+
+
+# ---- post hooks (C19: commands run inside the output directory only; C06: a missing or failing hook is a diagnostic) --------
+
+def hooks_contract():
+    """Project._run_post_hooks / _run_command for ANY number of configured hooks (loop invariant over a ghost flag):
+         every command is looked up by its first word; a command that is not on PATH is skipped with a WARNING;
+         every command that runs is started with cwd = the project directory (the directory the user named), through the shell,
+         with check=True; a failing command becomes an ERROR diagnostic; no exception escapes; nothing is run otherwise."""
+    QH = Q + "._run_post_hooks"
+
+    def make(I):
+        import shutil
+        import subprocess
+        import openapi_python_client as opc
+        from pyvc.absdata import CountList
+        from pyvc.symexec import LoopSpec, SSeq
+        Z = I.Z
+        trace = []
+        world = {"project_dir_exists": z3.BoolVal(True)}
+        project_dir = SPath(("project_dir",), trace, world)
+        package_dir = project_dir if I.branch_free() else SPath(("project_dir", "package"), trace, world)
+        W = type("W", (), {})()
+        W.bad = z3.BoolVal(False)          # some command was started differently from what the contract says
+        W.runs = z3.IntVal(0)
+        W.looked = z3.IntVal(0)
+        errors = CountList("errors")
+        hooks = SSeq(z3.Const("post_hooks", z3.SeqSort(Z.JV)), lambda x: Z.rec["str"](x), [lambda v: SStr(Z.acc["s"](v.t))])
+        config = SOpaque("config", attrs={"post_hooks": hooks})
+        proj = SObj(opc.Project, {"project_dir": project_dir, "package_dir": package_dir, "config": config, "errors": errors})
+        first_word = z3.Function("str_before_first", z3.StringSort(), z3.StringSort(), z3.StringSort())
+
+        def which(I2, a, k):
+            W.looked = W.looked + 1
+            cmd = getattr(W, "current", None)
+            if cmd is not None:
+                ok = I2.to_str_term(a[0]) == first_word(cmd, z3.StringVal(" "))
+                W.bad = z3.Or(W.bad, z3.Not(ok))
+            return SStr(I2.fresh("found_at", z3.StringSort())) if I2.branch_free() else None
+
+        def run(I2, a, k):
+            W.runs = W.runs + 1
+            cwd = k.get("cwd")
+            ok = isinstance(cwd, SPath) and cwd.parts == ("project_dir",) and k.get("shell") is True and k.get("check") is True
+            cmd_ok = I2.to_str_term(a[0]) == W.current if (a and getattr(W, "current", None) is not None) else z3.BoolVal(False)
+            W.bad = z3.Or(W.bad, z3.Not(z3.And(z3.BoolVal(ok), cmd_ok)))
+            if I2.branch_free():
+                return SOpaque("CompletedProcess", cls=object)
+            out = SOpaque("bytes", cls=object, attrs={"decode": SFunc("model", lambda I3, a3, k3: SStr(I3.fresh("decoded", z3.StringSort())))})
+            err = SObj(subprocess.CalledProcessError, {"args": STuple([]), "stderr": out, "output": out, "returncode": 1, "cmd": a[0]})
+            from pyvc.symexec import PyRaise
+            raise PyRaise(err)
+        I.lib = dict(I.lib)
+        I.lib[shutil.which] = which
+        I.lib[subprocess.run] = run
+
+        # the command the loop is at: read from the frame of the generic iteration through the element function
+        def elem(v):
+            W.current = Z.acc["s"](v.t)
+            return SStr(W.current)
+        hooks.maps = [elem]
+
+        def inv(I2, loc, seen):
+            return z3.And(z3.Not(W.bad), W.runs >= 0, W.runs <= z3.Length(seen), W.looked == z3.Length(seen))
+
+        def havoc_world(I2):
+            W.bad = I2.fresh("bad", z3.BoolSort())
+            W.runs = I2.fresh("runs", z3.IntSort())
+            W.looked = I2.fresh("looked", z3.IntSort())
+            return None
+        I.loop_specs[(QH, 0)] = LoopSpec(inv, {"__ghost_world__": havoc_world})
+        return SFunc("pyfunc", opc.Project._run_post_hooks), [proj], {}, {"W": W, "hooks": hooks, "trace": trace, "errors": errors}
+
+    def inside(ctx):
+        W = ctx.inputs["W"]
+        n = z3.Length(ctx.inputs["hooks"].base)
+        return z3.And(z3.Not(W.bad), W.runs <= n, W.looked == n)
+
+    def no_fs(ctx):
+        return not ctx.inputs["trace"]
+
+    clauses = [
+        Clause("hooks-run-in-the-output-directory", inside,
+               statement="each configured command is looked up once by its first word; every command that is started is the "
+                         "configured text, run through the shell with check=True and cwd = the project directory; at most one "
+                         "start per configured command", props=["C19", "C06"]),
+        Clause("no-other-effect", no_fs, statement="running the hooks creates, writes and removes nothing itself", props=["C19"]),
+    ]
+    return FnContract(QH, [Case("any-number-of-hooks", make, clauses, raises=(), props=["C19", "C06"])])
